@@ -37,7 +37,64 @@ def _outer(f):
     return f[0] if isinstance(f, tuple) and f and f[0] not in ("discr", "bool") else None
 
 
-def _transfer(fn, b, fs, tracked, root, enums=frozenset(), resolved=None, edge_facts=None):
+class _Aux:
+    """Per-function lookups for comparisons of enum values through references."""
+
+    def __init__(self, fn):
+        import cfg as _cfg
+        self.refs = {}
+        self.adts = getattr(getattr(fn, "fx", None), "adts", {}) or {}
+        for l in range(len(fn.locals)):
+            ds = _cfg.whole_defs(fn, l)
+            if len(ds) == 1 and not ds[0].is_term:
+                rv = ds[0].node["rv"]
+                if rv["k"] == "ref" and not rv["pl"].get("p"):
+                    self.refs[l] = ("local", rv["pl"]["l"])
+                elif rv["k"] == "ref" and all(e_ == "deref" for e_ in rv["pl"]["p"]):
+                    self.refs[l] = ("alias", rv["pl"]["l"])      # a reborrow `&*r`
+                elif rv["k"] == "use" and "c" in rv["op"] and "promoted" in rv["op"]["c"]:
+                    self.refs[l] = ("prom", rv["op"]["c"]["promoted"])
+                elif rv["k"] == "use" and not (_op_place(rv["op"]) or {"p": 1}).get("p"):
+                    self.refs[l] = ("alias", _op_place(rv["op"])["l"])
+        self.proms = fn.raw.get("promoted", [])
+
+    def fieldless(self, adt):
+        a = self.adts.get(adt)
+        return bool(a) and all(not v.get("fields") for v in a.get("variants", []))
+
+    def variant_of(self, fn, fs, operand, depth=0):
+        """(adt, variant) of the enum value the operand refers to, if known on this path."""
+        if depth > 5:
+            return None
+        c = operand.get("c")
+        if c is not None and "promoted" in c:
+            return self._prom(c["promoted"])
+        p = _op_place(operand)
+        if p is None or p.get("p"):
+            return None
+        r = self.refs.get(p["l"])
+        if r is None:
+            return None
+        if r[0] == "prom":
+            return self._prom(r[1])
+        if r[0] == "alias":
+            return self.variant_of(fn, fs, {"cp": {"l": r[1]}}, depth + 1)
+        f_ = fs.get(r[1])
+        if isinstance(f_, tuple) and f_ and f_[0] not in ("discr", "bool") and len(f_) > 2:
+            return (f_[2], f_[0])
+        return None
+
+    def _prom(self, idx):
+        if idx >= len(self.proms):
+            return None
+        for s_ in self.proms[idx]:
+            rv = s_["rv"]
+            if rv["k"] == "agg" and rv.get("ak") == "adt" and rv.get("variant") is not None:
+                return (rv.get("adt"), rv["variant"])
+        return None
+
+
+def _transfer(fn, b, fs, tracked, root, enums=frozenset(), resolved=None, edge_facts=None, aux=None):
     """Apply block b's statements and terminator to the fact map fs; returns (facts-after, successor list).
     A fact is (variant, inner fact or None): `Ok(Some(x))` is ("Ok", ("Some", None))."""
     fs = dict(fs)
@@ -55,9 +112,11 @@ def _transfer(fn, b, fs, tracked, root, enums=frozenset(), resolved=None, edge_f
                     p = _op_place(rv["fields"][0])
                     if p is not None and not p.get("p") and isinstance(fs.get(p["l"]), tuple) and fs[p["l"]][0] != "discr":
                         inner = fs[p["l"]]      # a known variant, or a known bool (`Ok(false)`)
+                    elif p is None and "c" in rv["fields"][0] and rv["fields"][0]["c"].get("ty") == "bool":
+                        inner = ("bool", bool(rv["fields"][0]["c"].get("v")))
                         if "mv" in rv["fields"][0]:
                             fs.pop(p["l"], None)
-                new = (rv.get("variant"), inner)
+                new = (rv.get("variant"), inner) if rv.get("adt") in TRACK_ADTS else (rv.get("variant"), inner, rv.get("adt"))
             elif k == "use":
                 p = _op_place(rv["op"])
                 if p is not None and p["l"] in fs:
@@ -116,6 +175,13 @@ def _transfer(fn, b, fs, tracked, root, enums=frozenset(), resolved=None, edge_f
             p = _op_place(t["args"][0])
             if p is not None and not p.get("p") and _outer(fs.get(p["l"])) in BRANCH:
                 new = (BRANCH[_outer(fs[p["l"]])], fs[p["l"]][1])
+        if f.get("orig") in ("core::cmp::PartialEq::eq", "core::cmp::PartialEq::ne") and len(t["args"]) == 2 and aux is not None:
+            # `plan == CopyPlan::Sparse` on a value whose variant is known on this path (derived PartialEq)
+            vs = [aux.variant_of(fn, fs, a_) for a_ in t["args"]]
+            if vs[0] is not None and vs[1] is not None and vs[0][0] == vs[1][0]:
+                same = vs[0][1] == vs[1][1]
+                if not same or aux.fieldless(vs[0][0]):
+                    new = ("bool", same if f["orig"].endswith("::eq") else not same)
         if f.get("orig") == "core::ops::try_trait::FromResidual::from_residual" and not d.get("p"):
             ty = fn.locals[d["l"]]["ty"]
             if ty.startswith("core::result::Result<"):
@@ -179,7 +245,8 @@ def _transfer(fn, b, fs, tracked, root, enums=frozenset(), resolved=None, edge_f
                             by_t[t["otherwise"]] = rest
                         for tb, vals in by_t.items():
                             if len(vals) == 1 and vals[0] in names:
-                                edge_facts[tb] = {rv_["pl"]["l"]: (names[vals[0]], None)}
+                                edge_facts[tb] = {rv_["pl"]["l"]: (names[vals[0]], None) if rv_.get("adt") in TRACK_ADTS
+                                                  else (names[vals[0]], None, rv_.get("adt"))}
         return fs, succ
     return fs, []
 
@@ -210,6 +277,9 @@ def _relevant_liveness(fn):
                     use(p["l"])
             elif k == "discr":
                 use(rv["pl"]["l"])
+            elif k == "ref":
+                if not rv["pl"].get("p"):
+                    use(rv["pl"]["l"])      # `&plan` handed to a derived `==`
             elif k == "un":
                 p = _op_place(rv["a"])
                 if p is not None:
@@ -295,6 +365,7 @@ def threaded(fn, limit_factor=4):
     nb = len(blocks)
     root = fn.path
     live = _relevant_liveness(fn)
+    aux = _Aux(fn)
     fx_ = getattr(fn, "fx", None)
     enums = frozenset(p_ for p_, a_ in (fx_.adts.items() if fx_ is not None else []) if a_.get("kind") == "enum")
     limit = limit_factor * nb + 400
@@ -314,7 +385,7 @@ def threaded(fn, limit_factor=4):
             continue
         rs = []
         ef = {}
-        out, ss = _transfer(fn, b, dict(fs), tracked, root, enums, rs, ef)
+        out, ss = _transfer(fn, b, dict(fs), tracked, root, enums, rs, ef, aux)
         if rs:
             resolved_at[st] = rs[0]
         res = []
